@@ -168,8 +168,9 @@ def run(ctx):
                 ver2.append(("jws.ver", {"jws": tok, "jwk": k, "_expect": True, "_why": side + " " + why}))
             ver2.append(("jws.ver", {"jws": tok, "jwk": [a["_k1"], a["jwk"]], "all": True, "_expect": True, "_why": side + " both keys, all"}))
             ver2.append(("jws.ver", {"jws": tok, "jwk": {"keys": [a["jwk"], a["_k1"]]}, "all": True, "_expect": True, "_why": side + " JWKSet, all"}))
-            ver2.append(("jws.ver", {"jws": tok, "jwk": [a["jwk"], pool["oct-128"]], "all": True, "_expect": False, "_why": side + " all with a foreign key"}))
-            ver2.append(("jws.ver", {"jws": tok, "jwk": [pool["oct-128"], a["jwk"]], "all": False, "_expect": True, "_why": side + " any with a foreign key"}))
+            foreign = {"kty": "oct", "k": G.b64u(rng.randbytes(128))}      # a key nobody signed with
+            ver2.append(("jws.ver", {"jws": tok, "jwk": [a["jwk"], foreign], "all": True, "_expect": False, "_why": side + " all with a foreign key"}))
+            ver2.append(("jws.ver", {"jws": tok, "jwk": [foreign, a["jwk"]], "all": False, "_expect": True, "_why": side + " any with a foreign key"}))
             if side == "jose":
                 third.append((tok, a["_k1"], a["jwk"]))
     compare(ctx, ver2, p_ver)
